@@ -195,8 +195,9 @@ def run_fold(case):
     tp = common.use_repo()
     import torch
     X, U = _mk_points(tp, torch)
-    xs = [Fraction(a, 8) for a in case["x"]]
-    ys = [Fraction(a, 8) for a in case["y"]]
+    sc = Fraction(1, 2 ** case.get("scale", 0))       # data on the scales 1, 2^-10 (1e-3), 2^-20 (1e-6): dyadic, exact in float64
+    xs = [Fraction(a, 8) * sc for a in case["x"]]
+    ys = [Fraction(a, 8) * sc for a in case["y"]]
     n = len(xs)
     xin = tp.spaces.Points(torch.tensor([[float(a), 0.0] for a in xs], dtype=torch.float64), X)
     yout = tp.spaces.Points(torch.tensor([[float(a)] for a in ys], dtype=torch.float64), U)
@@ -227,7 +228,7 @@ def run_fold(case):
                                              collate_fn=collate)
     else:
         loader = tp.utils.PointsDataLoader((xin, yout), batch_size=case["bs"], shuffle=False, drop_last=bool(case["drop"]))
-    cond = tp.conditions.DataCondition(First(), loader, norm=case["norm"], root=1.0, use_full_dataset=True)
+    cond = tp.conditions.DataCondition(First(), loader, norm=case["norm"], root=float(case.get("root", 1)), use_full_dataset=True)
     val = float(cond.forward())
     # batches as the loader delivers them (already validated by the `pts` correspondence)
     bs = case["bs"]
@@ -282,7 +283,7 @@ def run_fold_deeponet(case):
             xs = (tt[0, :, 1] if tt.dim() == 3 else tt[:, 0]).long()
             return tp.spaces.Points(P[self.branch.fs][:, xs].unsqueeze(-1), U)
 
-    cond = tp.conditions.DeepONetDataCondition(Table(), loader, norm=case["norm"], root=1.0, use_full_dataset=True)
+    cond = tp.conditions.DeepONetDataCondition(Table(), loader, norm=case["norm"], root=float(case.get("root", 1)), use_full_dataset=True)
     val = float(cond.forward())
     batches = []
     for bb, tb, ob in loader:
@@ -359,12 +360,12 @@ def gen_cases(ctx):
         n = rng.randint(1, 14)
         cases.append(dict(kind="fold", x=[rng.randint(-40, 40) for _ in range(n)], y=[rng.randint(-40, 40) for _ in range(n)],
                           bs=rng.randint(1, n + 2), drop=rng.randint(0, 1), norm=rng.choice(["inf", 1, 2, 2, 3]),
-                          loader=rng.choice(["points", "points", "torch"])))
+                          loader=rng.choice(["points", "points", "torch"]), root=rng.choice([1, 1, 2, 3]), scale=rng.choice([0, 0, 10, 20])))
     for _ in range(ctx.scale(100, 1000)):
         nB, nT = rng.randint(1, 7), rng.randint(1, 7)
         cases.append(dict(kind="fold", loader="deeponet", layout=rng.choice(["shared", "unique"]), nB=nB, nT=nT,
                           bB=rng.choice([-1, rng.randint(1, nB + 1)]), bT=rng.choice([-1, rng.randint(1, nT + 1)]),
-                          shB=rng.randint(0, 1), shT=rng.randint(0, 1), norm=rng.choice(["inf", 1, 2, 2, 3]),
+                          shB=rng.randint(0, 1), shT=rng.randint(0, 1), norm=rng.choice(["inf", 1, 2, 2, 3]), root=rng.choice([1, 1, 2, 3]),
                           pred=[[rng.randint(-24, 24) for _ in range(nT)] for _ in range(nB)],
                           y=[[rng.randint(-24, 24) for _ in range(nT)] for _ in range(nB)]))
     return cases
@@ -465,9 +466,15 @@ def judge(rep, case, res, model_reply):
         ref = res["ref"]
         if common.unq(model_reply) != ref:
             rep.disagree("full-data-set fold: drivers/C16.lean fold vs reference reduction", case, str(ref), model_reply)
-        if abs(res["value"] - float(ref)) > 1e-5 * max(1.0, abs(float(ref))):  # the accumulator is float32
-            rep.fail(f"{'DeepONet' if case.get('loader') == 'deeponet' else ''}DataCondition(use_full_dataset) on a "
-                     f"{case.get('loader', 'points')} loader returned {res['value']!r}, the documented aggregate over the batches of one pass is {float(ref)!r}", case)
+        root = case.get("root", 1)
+        want = float(ref) ** (1.0 / root) if root != 1 else float(ref)     # "the n-th root to be computed to obtain the final loss"
+        if root != 1:
+            rep.count(f"fold-root:{root}")
+        rep.count(f"fold-scale:2^-{case.get('scale', 0)}")
+        # the accumulator is float32: relative tolerance 1e-5 (absolute only below the float32 denormal range)
+        if abs(res["value"] - want) > 1e-5 * abs(want) + 1e-37:
+            rep.fail(f"{'DeepONet' if case.get('loader') == 'deeponet' else ''}DataCondition(use_full_dataset, norm={case['norm']}, root={root}) on a "
+                     f"{case.get('loader', 'points')} loader returned {res['value']!r}, the documented aggregate over the batches of one pass is {want!r}", case)
 
 
 def run(ctx, rep, cases=None):
